@@ -79,6 +79,12 @@ func (c *monC09) After(m *Machine, s *Step) *Violation {
 	r := s.Resp
 	b := op.B % len(m.W.Jars)
 	passive := op.K == "visit" || op.K == "set"
+	if op.K == "raw" && r.Rec.HandlerErr != nil && r.Status >= 500 {
+		// a request the library could not even read (malformed body), answered by the application's error handler with a
+		// 500: the handler queued nothing of its own, so what the expiry middleware decided must reach the client all the same
+		passive = true
+		m.flag("error-answer-on-session")
+	}
 	_, hadUser := r.SessBefore[authboss.SessionKey]
 	laStr, hadStamp := r.SessBefore[authboss.SessionLastAction]
 
@@ -200,7 +206,7 @@ func (c *monC09) End(m *Machine) *Violation { return nil }
 
 var kindsC09 = []wk{
 	{"login", 20}, {"otplogin", 4}, {"visit", 26}, {"set", 8}, {"advance", 22}, {"o2start", 3}, {"o2cb", 3}, {"totpvalidate", 4}, {"smsvalidate", 4},
-	{"snip:2fa", 6}, {"snip:recover", 3}, {"snip:oauth", 3}, {"snip:otp", 2}, {"logout", 2}, {"newsess", 2}, {"register", 2}, {"totpsetup", 1}, {"smssetup", 1}, {"snip:idle", 22},
+	{"snip:2fa", 6}, {"snip:recover", 3}, {"snip:oauth", 3}, {"snip:otp", 2}, {"logout", 2}, {"newsess", 2}, {"register", 2}, {"totpsetup", 1}, {"smssetup", 1}, {"snip:idle", 22}, {"raw", 7},
 }
 
 var profC09 = profile{
